@@ -33,6 +33,8 @@ struct Run<'a, W: Write> {
     storage_bits: usize,
     cases: HashSet<u64>,
     trivial_cases: u64,
+    gcs_done: u32,
+    in_constructor: bool,
 }
 
 fn parse_arg(tok: &str) -> Option<(usize, bool)> {
@@ -75,6 +77,10 @@ impl<'a, W: Write> Run<'a, W> {
 
     fn oracle_fail(&mut self, prop: &str, msg: &str) {
         writeln!(self.out, "ORACLE {} line={} {}", prop, self.lineno, msg).unwrap();
+        // a malformed or non-canonical diagram returned by a constructor also contradicts C15 ("all of them return canonical handles")
+        if self.in_constructor && (prop == "C04" || prop == "C01") {
+            writeln!(self.out, "ORACLE C15 line={} {}", self.lineno, msg).unwrap();
+        }
     }
 
     /// Meaning of a handle, read through the public node accessors only. None if a variable exceeds nvars
@@ -779,11 +785,21 @@ impl<'a, W: Write> Run<'a, W> {
             return;
         }
         self.oracle_evals += 1;
+        self.in_constructor = matches!(t[0], "const" | "var" | "node" | "cube" | "clause");
+        self.after_reg_checks(t, r, got);
+        self.in_constructor = false;
+    }
+
+    fn after_reg_checks(&mut self, t: &[&str], r: Ref, got: Option<TT>) {
         self.check_structure(r);
         let Some(got) = got else { return };
         if let Some((want, prop)) = self.expected(t) {
             if want != got {
                 self.oracle_fail(prop, &format!("{} returned {} meaning {:x}, expected {:x}", t.join(" "), r, got, want));
+                if self.gcs_done > 0 {
+                    // C05: all later operations on surviving handles remain correct after a collection
+                    self.oracle_fail("C05", &format!("after {} collection(s): {} returned {} meaning {:x}, expected {:x}", self.gcs_done, t.join(" "), r, got, want));
+                }
             }
         }
         // accessors (C08): low/high/topcof are the cofactors w.r.t. the top variable / the given variable
@@ -1110,6 +1126,7 @@ impl<'a, W: Write> Run<'a, W> {
                     writeln!(self.out, "skip").unwrap();
                 }
                 Step::Gc(Some(alive)) => {
+                    self.gcs_done += 1;
                     let mut dead = 0usize;
                     for j in 0..self.regs.len() {
                         match self.regs[j] {
@@ -1198,6 +1215,8 @@ pub fn run_bdd<W: Write>(lines: &[String], opts: &Opts, out: &mut W) {
         storage_bits: bits,
         cases: HashSet::new(),
         trivial_cases: 0,
+        gcs_done: 0,
+        in_constructor: false,
     };
     run.run(lines);
 }
